@@ -182,6 +182,33 @@ def discharge_one(args):
     return name, 'unknown', trail, None, reason
 
 
+def recheck_one(args):
+    """independent re-check of a query the primary solver proved: the two CLI solvers, short budget"""
+    name, smt2, budget_s = args
+    out = {}
+    if shutil.which('/usr/bin/cvc5'):
+        r, secs = _run_cli(['/usr/bin/cvc5', '--tlimit=%d' % int(budget_s * 1000), '--full-saturate-quant'],
+                           'set-logic ALL'.join(['(', ')\n']) + smt2, budget_s + 5)
+        out['cvc5-1.0.3-cli'] = r if r in ('unsat', 'sat') else 'undecided'
+    if shutil.which('/usr/bin/z3'):
+        r, secs = _run_cli(['/usr/bin/z3', '-T:%d' % int(budget_s)], smt2, budget_s + 5)
+        out['z3-4.8.12-cli'] = r if r in ('unsat', 'sat') else 'undecided'
+    return name, out
+
+
+def recheck(queries, budget_s=5.0, procs=None):
+    procs = procs or int(os.environ.get('PYVC_PROCS', 0)) or min(16, os.cpu_count() or 1)
+    jobs = [(q.name, q.smt2, budget_s) for q in queries]
+    out = {}
+    if not jobs:
+        return out
+    ctx = mp.get_context('fork')
+    with ctx.Pool(min(procs, len(jobs))) as pool:
+        for name, res in pool.imap_unordered(recheck_one, jobs, chunksize=4):
+            out[name] = res
+    return out
+
+
 def discharge(queries, budget_s=10.0, procs=None, want_model=True, portfolio=True):
     """returns {name: (status, trail, model, reason)}; status unsat = proved"""
     procs = procs or int(os.environ.get('PYVC_PROCS', 0)) or min(16, os.cpu_count() or 1)
